@@ -163,6 +163,56 @@ def run(ctx):
                 r.fail('%s:%s:re-preprocess-bypassed' % (CRATE, name), pp.where(bypass[0].get('l') or f['l']),
                        '%s can return an expansion (`%s`) without preprocessing it again: nested usages and directives in it stay as they are and '
                        'strip_comments is not applied to it' % (name, sq(bypass[0])[:60]))
+        # the text handed back IS the output of the nested run: nothing is appended to it (or otherwise changed) after the run — text added
+        # afterwards is never scanned, so a usage or directive in it stays as it is, and an alias of a macro with formals
+        # (`define ADD `SUM / `ADD(1, 2)) no longer finds its argument list
+        if len(calls) == 1:
+            host = [n for n in sx.walk(body) if n.get('k') == 'let' and 'init' in n and any(z is calls[0] for z in sx.walk(n['init']))]
+            rv = None
+            if host and host[0]['pat'].get('k') == 'tuple' and host[0]['pat']['e'] and host[0]['pat']['e'][0].get('k') == 'ident':
+                rv = host[0]['pat']['e'][0]['n']
+            exits_ = [n for n in sx.walk(body) if sx.is_call(n, 'Ok') and n['args'] and sx.is_call(n['args'][0], 'Some') and n['args'][0]['args']
+                      and n['args'][0]['args'][0].get('k') == 'tuple' and (n.get('l') or 0) > (calls[0].get('l') or 0)]
+            MUT = ('push_str', 'push', 'insert', 'insert_str', 'extend', 'truncate', 'clear', 'pop', 'replace_range', 'retain', 'drain', 'remove')
+
+            def is_nested_text(e_):
+                while True:
+                    if sx.is_call(e_) and e_['f']['p'] in ('String::from', 'std::string::String::from') and len(e_['args']) == 1:
+                        e_ = e_['args'][0]
+                    elif e_.get('k') == 'mcall' and e_['m'] in ('to_string', 'to_owned', 'into', 'clone', 'as_str') and not e_['args']:
+                        e_ = e_['recv']
+                    elif e_.get('k') in ('ref', 'paren'):
+                        e_ = e_['e']
+                    else:
+                        break
+                return e_.get('k') == 'mcall' and e_['m'] == 'text' and sx.is_path(e_['recv'], rv)
+            for ex_ in exits_:
+                t_ = ex_['args'][0]['args'][0]['e'][0] if ex_['args'][0]['args'][0]['e'] else None
+                if t_ is None or rv is None:
+                    continue
+                r.inst('expansion-text-source', {'returned_text': sq(t_)[:50]})
+                verdict = None
+                if is_nested_text(t_):
+                    verdict = 'ok'
+                elif sx.is_path(t_):
+                    v_ = t_['p']
+                    lets_ = [n for n in sx.walk(body) if n.get('k') == 'let' and 'init' in n and n['pat'].get('k') == 'ident' and n['pat']['n'] == v_
+                             and (calls[0].get('l') or 0) < (n.get('l') or 0) <= (ex_.get('l') or 0)]
+                    if lets_ and is_nested_text(lets_[-1]['init']):
+                        l0 = lets_[-1].get('l') or 0
+                        muts_ = [n for n in sx.walk(body) if (n.get('l') or 0) >= l0 and (
+                            (n.get('k') == 'mcall' and n['m'] in MUT and sx.is_path(sx.strip_ref(n['recv']), v_)) or
+                            (n.get('k') in ('assign', 'binary') and str(n.get('op', '=')).endswith('=') and n.get('op') not in ('==', '<=', '>=', '!=') and sx.is_path(n.get('l_', {}), v_)))]
+                        verdict = ('wrong', muts_[0]) if muts_ else 'ok'
+                elif t_.get('k') == 'binary' and t_.get('op') == '+' or t_.get('k') == 'macro':
+                    if any(is_nested_text(z) for z in sx.walk(t_) if isinstance(z, dict)):
+                        verdict = ('wrong', t_)
+                if verdict is None:
+                    r.undecided('%s:%s:expansion-text-source' % (CRATE, name), pp.where(ex_.get('l') or f['l']), 'how the returned text `%s` derives from the nested run is not recognised' % sq(t_)[:50])
+                elif verdict != 'ok':
+                    r.fail('%s:%s:expansion-text-modified-after-rescan' % (CRATE, name), pp.where(verdict[1].get('l') or ex_.get('l') or f['l']),
+                           '%s changes the text of the expansion after the nested run (`%s`): what is added there is never scanned again — a macro usage or directive in it stays in the '
+                           'output as it is, and an alias of a macro with formals no longer finds its argument list (DefineNoArgs)' % (name, sq(verdict[1])[:60]))
     # --------------------------------------------------------------------------------------------- X14
     tab = table_var(pp)
     writes = []
